@@ -1,15 +1,20 @@
-import GoderiveModel.U.Typing
-import GoderiveModel.Spec.StructEq
-open Goderive
-#check @hasType.eq_2
-#check @hasType.eq_3
-#check @hasType.eq_9
-#check @hasType.eq_10
-#check @hasType.eq_def
-#check @Spec.structEq.eq_10
-#check @Spec.structEq.eq_def
-example (env : Env) (T R : Ty) (v : Val) (a : Nat) (h : env.under T = .ptr R) : hasType env T (.ptr a v) = hasType env R v := by
-  rw [hasType, h]
-example (env : Env) (T R : Ty) (v : Val) (h : env.under T = .ptr R) : hasType env T v = match v with | .nilv => true | .ptr _ a => hasType env R a | _ => false := by
-  rw [hasType.eq_def, h]
-  cases v <;> rfl
+import GoderiveModel.Lemmas.Equal
+open Goderive Val
+
+def env1 : Env := { decls := [
+  { under := .struct (.fcons (.basic (.int 64 true)) (.fcons (.ptr (.named 0)) (.fcons (.slice (.basic .string))
+      (.fcons (.map (.basic .string) (.named 1)) .fnil)))), canEq := false },
+  { under := .struct (.fcons (.basic (.float 64)) (.fcons (.basic (.float 64)) .fnil)), canEq := true } ] }
+
+def pt (a b : Nat) : Val := .struct (.scons (.flt 64 a) (.scons (.flt 64 b) .snil))
+def leaf (addr : Nat) : Val := .struct (.scons (.int 2) (.scons .nilv (.scons .nilv (.scons .nilv .snil))))
+def node (n : Int) (a1 a2 a3 : Nat) (order : Bool) : Val :=
+  .struct (.scons (.int n) (.scons (.ptr a1 (leaf 0)) (.scons (.slice a2 3 (.scons (.str [104, 105]) .snil))
+    (.scons (.map a3 (if order then
+        .scons (.pair (.str [97]) (pt 0 1)) (.scons (.pair (.str [98]) (pt 5 6)) .snil)
+      else .scons (.pair (.str [98]) (pt 5 6)) (.scons (.pair (.str [97]) (pt 0 1)) .snil))) .snil))))
+
+example : env1.flagsOk = true := by decide
+example : Supported env1 (.named 0) = true := by decide
+example : hasType env1 (.named 0) (node 1 10 11 12 true) = true := by
+  simp [hasType, fieldsHaveType, allHaveType, entriesHaveType, env1, node, leaf, pt, Env.under, Env.decl?, basicHasType, intInRange, keysDistinct, keyFresh, goEq, canEqual]
